@@ -587,3 +587,80 @@ func ResonantForToMontgomery(n *big.Int) []*big.Int {
 
 	return out
 }
+
+// FoldDigits returns 64-bit digits d for which a limb of d*c is 0, 2^64-1 or within 2^32 of 2^64, where
+// c = 2^256 mod N is the constant a hand-written wide reduction folds the high limbs with (2^256 = c mod N). Carries
+// between the partial products d*c of neighbouring limbs appear exactly there.
+func FoldDigits(n *big.Int) []uint64 {
+	c := new(big.Int).Mod(two256, n)
+	w := pow2(64)
+	seen := map[uint64]bool{}
+
+	var out []uint64
+
+	add := func(x *big.Int) {
+		if x == nil || x.Sign() <= 0 || x.Cmp(w) >= 0 {
+			return
+		}
+
+		for d := int64(-1); d <= 1; d++ {
+			v := addI(x, d)
+			if v.Sign() > 0 && v.Cmp(w) < 0 && !seen[v.Uint64()] {
+				seen[v.Uint64()] = true
+				out = append(out, v.Uint64())
+			}
+		}
+	}
+
+	limbs := (c.BitLen() + 63) / 64
+
+	for j := 0; j < limbs+1 && j < 4; j++ {
+		mod := pow2(64 * (j + 1))
+		a := new(big.Int).Mod(c, mod)
+
+		for _, iv := range [][2]*big.Int{
+			{bi(1), addI(pow2(32), 0)},                     // limb close to 0
+			{new(big.Int).Sub(w, pow2(32)), addI(w, -1)},   // limb within 2^32 of 2^64
+			{new(big.Int).Sub(w, pow2(8)), addI(w, -1)},    // limb within 2^8 of 2^64
+			{addI(pow2(63), -1), pow2(63)},
+		} {
+			lo := new(big.Int).Lsh(iv[0], uint(64*j))
+			hi := new(big.Int).Lsh(iv[1], uint(64*j))
+			hi.Add(hi, addI(pow2(64*j), -1))
+
+			if hi.Cmp(mod) >= 0 {
+				hi = addI(mod, -1)
+			}
+
+			add(solveModInterval(a, mod, lo, hi))
+		}
+	}
+
+	return out
+}
+
+// WideResonant returns 48-byte strings (hi1 || hi0 || 32 low bytes) whose two high limbs are fold digits / structured
+// limbs: inputs of the 48-byte wide reductions that hashing cannot steer.
+func WideResonant(n *big.Int) [][]byte {
+	digits := append([]uint64{0, 1, 1 << 63, ^uint64(0) - 1, ^uint64(0)}, FoldDigits(n)...)
+	lows := []*big.Int{new(big.Int), addI(n, -1), addI(two256, -1), new(big.Int).Rsh(n, 1), pow2(255)}
+
+	var out [][]byte
+
+	for i, h1 := range digits {
+		for j, h0 := range digits {
+			lo := lows[(i+j)%len(lows)]
+			b := make([]byte, 48)
+
+			for k := 0; k < 8; k++ {
+				b[k] = byte(h1 >> uint(56-8*k))
+				b[8+k] = byte(h0 >> uint(56-8*k))
+			}
+
+			lo.FillBytes(b[16:])
+			out = append(out, b)
+		}
+	}
+
+	return out
+}
